@@ -10,6 +10,8 @@ Both backends execute the *same* compute functions and differ only in `lib`.  He
 from __future__ import annotations
 
 import random
+
+import numpy
 import time
 
 from .. import common as C
@@ -160,6 +162,10 @@ def lib_table(F):
     F.check("C08", "sympylib/copysign-returns-first-argument", L.copysign(a, b) is a)
     F.check("C08", "sympylib/isclose-is-Eq", L.isclose(a, b, 1e-5, 1e-8, False) == sympy.Eq(a, b))
     F.check("C08", "sympylib/sign-is-numeric", L.sign(-2.0) == -1 and L.sign(3) == 1)
+    import math
+    for val in (0.5, -0.5, 0.25, -0.25, 1e-9, -1e-9, 1e-300, -1e-300, 1, -1, 2.5, -2.5, 1e300, -1e300, 0, 0.0, numpy.float64(0.75), numpy.float32(-0.125), numpy.int64(-3)):
+        exp = 0 if val == 0 else int(math.copysign(1, val))
+        F.check("C08", f"sympylib/sign({val!r})-is-the-sign-of-the-number", L.sign(val) == exp, dict(got=repr(L.sign(val)), expected=exp))
     members = sorted(n for n in dir(SympyLib) if not n.startswith("_"))
     covered = set(same) | {"arctan2", "pi", "inf", "nan_to_num", "maximum", "minimum", "copysign", "isclose", "sign"}
     F.check("C08", "sympylib/every-member-has-a-contract", set(members) <= covered, sorted(set(members) - covered))
@@ -353,6 +359,89 @@ def E_binary(d, d2):
     return E.binary_ops(d, d2)
 
 
+def sympy_numeric_replay(F, s, seed=0):
+    """BOUNDED: the statement itself, at regular points - every unary / binary operation of a SymPy vector, evaluated at numeric values of its
+    symbols, gives the numbers the object backend (NumPy lib) gives for those values.  Complements the glue contract above, which compares
+    the SymPy backend with the object backend *under the same SympyLib* and therefore cannot see a defect of SympyLib itself."""
+    import numpy
+    import sympy
+    import vector
+    from .. import arrays as AR
+    rng = random.Random(hash((tuple(s), seed)) & 0xFFFFF)
+    SCLS = {(2, False): vector.VectorSympy2D, (3, False): vector.VectorSympy3D, (4, False): vector.VectorSympy4D,
+            (2, True): vector.MomentumSympy2D, (3, True): vector.MomentumSympy3D, (4, True): vector.MomentumSympy4D}
+    d = len(s) + 1
+    names = AR.names_of(s)
+
+    def mk(s_, mom, suffix, vals):
+        nm = AR.names_of(s_)
+        syms = {n: sympy.Symbol(n + suffix, real=True) for n in nm}
+        sv = SCLS[(len(s_) + 1, mom)](**{(AR.MOM.get(n, n) if mom else n): syms[n] for n in nm})
+        return sv, AR.obj_of(s_, mom, vals), {syms[n]: vals[n] for n in nm}
+
+    def num(e, sub):
+        if isinstance(e, (bool, numpy.bool_)):
+            return bool(e)
+        if hasattr(e, "subs"):
+            v_ = e.subs(sub)
+            if v_ in (sympy.true, sympy.false):
+                return bool(v_)
+            c = complex(sympy.N(v_, 30))
+            return c.real if abs(c.imag) < 1e-12 else c
+        return e
+
+    def compare(tag, f, sargs, oargs, sub):
+        try:
+            with numpy.errstate(all="ignore"):
+                got = f(*sargs)
+                exp = f(*oargs)
+        except Exception:
+            return
+        try:
+            if isinstance(exp, vector.Vector):
+                if not isinstance(got, vector.Vector) or AR.sysof(got) != AR.sysof(exp):
+                    return      # reported by the glue contract
+                if vector.dim(exp) == 4 and not (float(exp.t) > 0 and float(exp.tau) > 0):
+                    return      # outside the regular domain of the statement (result not forward timelike: sign conventions of tau / copysign)
+                for n in AR.names_of(AR.sysof(exp)):
+                    g, e = num(getattr(got, n), sub), float(getattr(exp, n))
+                    ok = AR.ang_close(g, e) if n == "phi" else AR.close(g, e, 1e-9, 1e-10)
+                    F.check("C08", f"replay-all/{n}/{tag}", bool(ok), dict(symbolic=str(g)[:60], numeric=e))
+            elif isinstance(exp, tuple) or isinstance(got, tuple):
+                return
+            else:
+                g = num(got, sub)
+                e = exp.item() if isinstance(exp, numpy.generic) else exp
+                if isinstance(e, (bool, numpy.bool_)) or isinstance(g, bool):
+                    if isinstance(g, bool):
+                        F.check("C08", f"replay-all/value/{tag}", bool(g) == bool(e), dict(symbolic=g, numeric=e))
+                    return
+                F.check("C08", f"replay-all/value/{tag}", AR.close(g, float(e), 1e-9, 1e-10), dict(symbolic=str(g)[:60], numeric=float(e)))
+        except Exception:
+            return
+
+    skip = ("isclose", "equal", "==", "!=", "allclose", "is_", "(gamma)")      # Eq ignores tolerances; a negative gamma carries the direction through copysign (documented exclusions)
+    for mom in (False, True):
+        v1 = AR.one(s, rng)
+        sv, ov, sub = mk(s, mom, "", v1)
+        tag0 = f"[{','.join(s)}|{'mom' if mom else 'gen'}]"
+        for name, f in E_unary(d, mom):
+            if any(k in name for k in skip):
+                continue
+            compare(f"{name}{tag0}", f, (sv,), (ov,), sub)
+        for s2 in AR.systems():
+            d2 = len(s2) + 1
+            if (hash((tuple(s), tuple(s2))) % 3) != 0:
+                continue
+            sw, ow, sub2 = mk(s2, mom, "_2", AR.one(s2, rng))
+            both = dict(sub)
+            both.update(sub2)
+            for name, f in E_binary(d, d2):
+                if any(k in name for k in skip):
+                    continue
+                compare(f"{name}{tag0}x[{','.join(s2)}]", f, (sv, sw), (ov, ow), both)
+
+
 def _sympy_glue_worker(s):
     from .. import engined as E
     from . import c15
@@ -365,6 +454,7 @@ def _sympy_glue_worker(s):
         cls = {(2, False): vector.VectorSympy2D, (3, False): vector.VectorSympy3D, (4, False): vector.VectorSympy4D,
                (2, True): vector.MomentumSympy2D, (3, True): vector.MomentumSympy3D, (4, True): vector.MomentumSympy4D}[(d, mom)]
         c15.sympy_inplace(lambda oid, ok, dd=None: F.check("C08", oid, ok, dd), cls, tuple(s), mom, prefix="sympy-glue/inplace")
+    sympy_numeric_replay(F, tuple(s), C.seed())
     return F.n, F.bad, st
 
 
